@@ -50,3 +50,21 @@ for cls, (lo, hi) in LIMITS.items():
                  ('within-DSP0004-range', f'{lo} <= intval(result) <= {hi}')],
         raises={'ValueError': Raises(post=[('only-out-of-range', f'intval(value) < {lo} or intval(value) > {hi}')])},
     ))
+
+
+# ---- further contracts of this property live in the sibling file C06_dt.py (same conventions)
+import importlib.util as _ilu_C06_dt
+import os as _os_C06_dt
+import sys as _sys_C06_dt
+_p_C06_dt = _os_C06_dt.path.join(_os_C06_dt.path.dirname(_os_C06_dt.path.abspath(__file__)), 'C06_dt.py')
+if _os_C06_dt.path.exists(_p_C06_dt):
+    _s_C06_dt = _ilu_C06_dt.spec_from_file_location('contracts_C06_dt', _p_C06_dt)
+    _m_C06_dt = _ilu_C06_dt.module_from_spec(_s_C06_dt)
+    _sys_C06_dt.modules['contracts_C06_dt'] = _m_C06_dt
+    _sys_C06_dt.modules.setdefault('contracts_C06', _sys_C06_dt.modules.get('contracts_C06') or _sys_C06_dt.modules[__name__])
+    _s_C06_dt.loader.exec_module(_m_C06_dt)
+    CONTRACTS.extend(_m_C06_dt.CONTRACTS)
+    CLASS_SPECS = dict(globals().get('CLASS_SPECS', {}))
+    for _k, _v in getattr(_m_C06_dt, 'CLASS_SPECS', {}).items():
+        CLASS_SPECS.setdefault(_k, {}).update(_v)
+    LEMMAS = list(globals().get('LEMMAS', [])) + list(getattr(_m_C06_dt, 'LEMMAS', []))
